@@ -35,7 +35,7 @@ def describe(tier):
         "bounds": {"names": NAMES, "shapes": [list(s) for s in SHAPES[tier]], "complex-input dtypes": DTYPES_C,
                    "real-input dtypes": DTYPES_R, "axis": "every axis", "axes": "None, every ordered pair, singles",
                    "n / s": "None, shorter, longer", "norm": [None, "ortho", "forward"], "backends": ["numpy", "dask"],
-                   "stft": {"nchan": [1, 2, 3, 4], "align": 3, "nperseg": "1,2,3,4,5,N", "N": [12, 15, 16]}},
+                   "stft": {"nchan": [1, 2, 3, 4], "align": 3, "nperseg": "1,2,3,4,5,N (and 13, 17: lengths that are not 11-smooth)", "N": [12, 15, 16, 26, 34]}},
         "alphabet": ["pb.fft.<name>(x, ...)", "unknown name -> AttributeError", "dir(pb.fft)", "contrib.stft", "contrib.istft"],
         "rule": "state = (name, shape, dtype, kwargs, backend) or (stft config); result compared in values, shape and dtype with "
                 "scipy.fft.<name>; cross-checked with numpy.fft and the long-double DFT definition (cases where the references "
@@ -52,7 +52,7 @@ def gen_cases(tier, seed):
     yield {"kind": "names"}
     for nchan in (1, 2, 3, 4):
         for align in ("bottom", "center", "top"):
-            for N in (12, 15, 16):
+            for N in (12, 15, 16, 26, 34):
                 yield {"kind": "stft", "nchan": nchan, "align": align, "N": N}
     for nchan in (1, 2, 3):
         yield {"kind": "stft_defaults", "nchan": nchan}
@@ -316,9 +316,13 @@ def stft_case(case, res):
     srq, fcq = 1 * u.MHz, 400 * u.MHz
     rng = np.random.default_rng(20)
     for trailing in ((), (2,), (2, 3), (2, 2)):
-        for P in sorted({1, 2, 3, 4, 5, N}):
+        for P in sorted({1, 2, 3, 4, 5, N} if N < 20 else {2, N // 2, N}):
             if len(trailing) == 2 and P not in (2, 3, N):
                 continue
+            if N >= 20 and len(trailing) == 1:
+                continue
+            if P in (13, 17, 26, 34):
+                res.hits["nperseg with a prime factor above 11"] += 1
             nt = N // P
             cls = "DualPolarizationSignal" if trailing else "BasebandSignal"
             # ---- inversion on a generic payload
@@ -489,7 +493,7 @@ def main(argv=None):
     return report.run_check(
         PID, gen_cases=gen_cases, check_case=check_case, describe=describe,
         required_hits=["buffer overwritten between calls", "optional arguments omitted / spelled", "Quantity input", "dask lazy result", "reference raises: pb raises too", "unknown name -> AttributeError",
-                       "tone under the right label", "truncated tail", "odd nperseg", "nperseg == length",
+                       "tone under the right label", "truncated tail", "odd nperseg", "nperseg == length", "nperseg with a prime factor above 11",
                        "non-center alignment on even nchan"],
         assumptions=["scipy.fft.<name> is the statement's reference; numpy.fft and the long-double DFT definition are independent "
                      "cross-checks, and calls on which they disagree with scipy are unconstrained",
